@@ -50,7 +50,8 @@ def plan(tier, prop):
                 "the faulty network, then a healed full probe; non-trivial = "
                 "at least one probe completed; distinct = distinct abstract "
                 "event traces",
-        "expected_probes": ["dead_chip", "unresponsive_chip",
+        "expected_probes": ["iobuf_over_8MiB",
+                            "dead_chip", "unresponsive_chip",
                             "chip_absent_after_loss", "global_busy_core",
                             "chip_specific_busy_core", "iobuf_multi_block",
                             "semver", "legacy_version", "resource_exception",
